@@ -505,12 +505,19 @@ def c02Step (sin sobs : Json) : Option String :=
   -- Public is never dereferenced as a recipient (a member of a fetched collection is the collection's business)
   let derefs : List (Iri × Json) := evs.filterMap fun e => if e.name == "deref" then some ((e.args.getD 0 Json.null).getStr?.toOption.getD "", e.resp) else none
   if delivers.length > 1 then some s!"the payload was handed to the transport {delivers.length} times" else
-  match delivers with
-  | [] => none
-  | dl :: _ =>
-  let payload := J.norm (toJ (dl.args.getD 0 Json.null))
-  let got : List Iri := jIris (dl.args.getD 1 Json.null)
-  let pid := Val.idGet payload
+  -- no delivery at all: only a question when the activity was stored and listed, federation is on and nothing the
+  -- application or the transport answered was an error (an unfetchable document aside: those recipients are skipped)
+  let listedId : Option Iri := evs.findSome? fun e => if e.name == "setOutbox" && !isErr e.resp then
+      (match Val.rawList (toJ (e.args.getD 0 Json.null)) "orderedItems" with
+       | some (J.str s :: _) => some s
+       | _ => none) else none
+  let quietRun := evs.all fun e => !isErr e.resp || e.name == "deref"
+  let federating := (cfgOf (jstr sin "kind")).federated
+  if delivers.isEmpty && !(listedId.isSome && quietRun && federating) then none else
+  let got : List Iri := match delivers with | dl :: _ => jIris (dl.args.getD 1 Json.null) | [] => []
+  let pid : Iri := match delivers with
+    | dl :: _ => Val.idGet (J.norm (toJ (dl.args.getD 0 Json.null)))
+    | [] => listedId.getD ""
   -- the activity as stored (still with bto/bcc)
   let stored := evs.findSome? fun e => if e.name == "create" && !isErr e.resp && Val.idGet (toJ (e.args.getD 0 Json.null)) == pid then some (J.norm (toJ (e.args.getD 0 Json.null))) else none
   match stored with
@@ -560,6 +567,9 @@ def c02Step (sin sobs : Json) : Option String :=
   | none => none
   | some want =>
   let expect := sortDedup want
+  -- (a Block is stored and listed but, by design, not delivered)
+  if delivers.isEmpty && jstr sobs "err" == "nil" && Val.typeName A == "Block" then none else
+  if delivers.isEmpty then some s!"the stored and listed activity was never handed to the transport although no lookup that has to succeed failed; its recipients are {expect}" else
   if sortDedup got != expect then some s!"recipients {got} are not the addressed inboxes {expect}"
   else if got.length != (sortDedup got).length then some s!"recipients contain duplicates: {got}"
   else if derefs.any (fun d => isPublic d.1 && r0.contains d.1) then some "the Public collection was dereferenced"
